@@ -255,7 +255,7 @@ def check_chain(ctx, fn, base_url, chain, optsets=OPTSETS):
 
 
 # platform URLs whose platform-aware form differs from the generic one, and the variations that keep them on the platform
-PLATFORM_BASES = ["https://www.facebook.com/photo/?fbid=10159&set=a.4242", "http://facebook.com/story.php?story_fbid=123456789&id=987654321", "https://www.facebook.com/some.page/posts/12345678",
+PLATFORM_BASES = ["https://www.youtube.com/watch?app=desktop&v=aBcDeFgHiJk", "https://www.facebook.com/photo/?fbid=10159&set=a.4242", "http://facebook.com/story.php?story_fbid=123456789&id=987654321", "https://www.facebook.com/some.page/posts/12345678",
                   "https://www.youtube.com/watch?v=aBcDeFgHiJk&feature=share&list=PL1", "http://youtu.be/aBcDeFgHiJk?t=10", "https://www.youtube.com/channel/UCabcdefghijklmnopqrstuv/videos",
                   "https://www.facebook.com/groups/12345678/permalink/87654321/"]
 
@@ -271,6 +271,8 @@ def platform_variants(u, rng):
            ("default-port", "%s://%s:%s%s" % (sp.scheme, host, "80" if sp.scheme == "http" else "443", rest)), ("host-case", "%s://%s%s" % (sp.scheme, host.upper(), rest)),
            ("subdomain", "%s://www.%s%s" % (sp.scheme, bare, rest)), ("subdomain", "%s://m.%s%s" % (sp.scheme, bare, rest)), ("wrap", " \t" + u + "\n"), ("controls", u[:9] + "\x00" + u[9:]),
            ("tracking", u + ("&" if "?" in u else "?") + "utm_source=x&fbclid=1"), ("fragment", u + "#top")]
+    if "&" in u:
+        out += [("amp-entity", u.replace("&", "&amp;")), ("amp-entity", u.replace("&", "&amp%3B"))]
     sep = "&" if "?" in u else "?"
     if host.lower().endswith("facebook.com"):
         out += [("tracking", u + sep + "_rdr=1"), ("tracking", u + sep + "_rdc=2&_rdr")]
@@ -326,6 +328,8 @@ REDIRECTS = ["https://www.facebook.com/login/?next=https%3A%2F%2Fwww.lemonde.fr%
              "https://mashable-com.cdn.ampproject.org/c/s/mashable.com/2018/08/10/x.amp", "http://l.example.com/l.php?u=https%3A%2F%2FEXAMPLE.org%2Fp%3Fb%3D2%26a%3D1&h=AT0",
              "http://a.com/?u=/x/y/", "http://a.com/go?target=https%3A%2F%2Fb.org%2F%3Fnext%3Dhttps%253A%252F%252Fc.net%252Fz", "http://a&u=/x", "http://www.a.com/?q=http://b.org",
              "https://www.youtube.com/redirect?q=lemonde.fr%2Fa&v=1", "http://a.com/p?redirect=%2Fz%3Futm_source%3D1%23frag",
+             "http://a.com/r?url=http%3A%2F%2Fb.com%2Fpage%20", "http://a.com/r?url=http%3A%2F%2Fb.com%2Fpage%0A%3Fx%3D1", "http://a.com/r?url=%20http%3A%2F%2Fb.com%2Fp", "http://a.com/r?u\nrl=http%3A%2F%2Fb.com%2Fp",
+             "http://a.com/r?url=http%3A%2F%2Fb.com%2Fp%09&x=1", "http://cdn.ampproject\x00.org/c/s/b.com/p",
              "a.fr/login?next=/home", "a.fr?u=/p", "www.a.fr/x/?url=%2Fy%2F&utm_source=1", "//a.fr/?u=/p",
              "https://cdn.ampproject.org:443/c/s/y.com/a", "http://x.com/?Q=http://y.com/a", "http://www.google.com/url?Q=http%3A%2F%2Fy.com%2Fa", "http://x.com/?a=1&%61mp;utm_source=1&AMP;b=2"]
 
